@@ -68,7 +68,7 @@ func main() {
 		mc.ServeWorker(route)
 	}
 	if len(os.Args) > 1 && os.Args[1] == "-capsinfo" {
-		fmt.Println(lib.MaxDepositsPerDexBatch, lib.MaxWithdrawsPerDexBatch, lib.MaxOrdersPerDexBatch)
+		fmt.Println(lib.MaxDepositsPerDexBatch, lib.MaxWithdrawsPerDexBatch, lib.MaxOrdersPerDexBatch, lib.MaxOrdersSettledPerBlock)
 		return
 	}
 	if len(os.Args) > 1 && os.Args[1] == "-probe" {
@@ -185,7 +185,7 @@ func main() {
 	cov["transition_outcomes"] = oc
 	cov["distinct_outcome_classes"] = len(oc)
 	if capsPool != nil {
-		cov["small_batch_caps_build"] = "searches whose configuration ends in " + c20lib.CapsLabel + " ran in workers built from the same tree with lib.MaxDepositsPerDexBatch / MaxWithdrawsPerDexBatch / MaxOrdersPerDexBatch overlaid to " + c20lib.SmallCaps + " (5000 / 5000 / 10000 cannot be reached by bounded search); the master verified the constants with -capsinfo"
+		cov["small_batch_caps_build"] = "searches whose configuration ends in " + c20lib.CapsLabel + " ran in workers built from the same tree with lib.MaxDepositsPerDexBatch / MaxWithdrawsPerDexBatch / MaxOrdersPerDexBatch / MaxOrdersSettledPerBlock overlaid to " + c20lib.SmallCaps + " (5000 / 5000 / 10000 / 250 cannot be reached by bounded search); the master verified the constants with -capsinfo"
 	}
 	cov["wiring"] = c20lib.Wiring
 	cov["not_covered"] = c20lib.NotCovered
